@@ -15,7 +15,7 @@ func init() {
 		Run: runC01,
 		Decided: "the printer cannot lose a part of the tree by construction: every type switch over a sealed syntax interface in code reachable from Print has a case for " +
 			"every parser-constructible implementor or a non-panicking default (R01a); every non-position, non-comment field of every parser-constructible node type is read " +
-			"by printer code, the documented cosmetic rewrites excepted one symbol each (R01b); Print returns a non-nil error only for the Minify+SingleLine refusal, an unsupported root node and writer flush errors (R01c).",
+			"by printer code, the documented cosmetic rewrites excepted one symbol each (R01b); Print returns a non-nil error only for the Minify+SingleLine refusal, an unsupported root node and writer flush errors (R01c). No printer queue is truncated in place while a saved alias is still read (R01d).",
 		NotDecided:  "quoting, spacing, separators, heredoc placement: that what is printed re-parses to the same tree.",
 		Assumptions: []string{"a field the printer never reads cannot influence its output (no reflection in package syntax's printer: checked by R01b's import test)"},
 		Controls:    c01Controls,
